@@ -141,4 +141,7 @@ def run(index, tier="quick", seed=0) -> Result:
         res.ok("IN-10", "Polyhedron.is_inside:vertex-order")
     from ..parallel import report as _copy1
     _copy1(res, index, lambda f: f['top'] in ('is_inside', '_point_plane_distances') and f['cls'] in ('Polyhedron', 'ConvexPolyhedron', 'Sphere', 'Ellipsoid', 'ConvexSpheropolyhedron'))
+    from ..dimscan import report_translation, scan as _scan
+    report_translation(res, _scan(index), lambda func, path: (path[0] if path else func).split(".")[0] in ("ConvexPolyhedron", "Polyhedron", "Sphere", "Ellipsoid", "ConvexSpheropolyhedron") and (path[0] if path else func).endswith(".is_inside"),
+                       "is_inside implementations")
     return res
